@@ -119,7 +119,7 @@ func (r *ring) addHostIfMissing(host *HostInfo) (*HostInfo, bool) {
 	existing, ok := r.hosts[hostID]
 	if !ok {
 		r.hosts[hostID] = host
-		r.hostIPToUUID[host.nodeToNodeAddress().String()] = hostID
+		r.hostIPToUUID[host.eventAddress().String()] = hostID
 		existing = host
 		r.hostList = append(r.hostList, host)
 	}
@@ -145,7 +145,7 @@ func (r *ring) removeHost(hostID string) bool {
 			}
 		}
 		// another host may have taken over the address in the meantime
-		if addr := h.nodeToNodeAddress().String(); r.hostIPToUUID[addr] == hostID {
+		if addr := h.eventAddress().String(); r.hostIPToUUID[addr] == hostID {
 			delete(r.hostIPToUUID, addr)
 		}
 	}
